@@ -71,6 +71,97 @@ M("itp-multi-comment-truncated", ["C16"], "gaddlemaps/parsers/_itp_parse.py",
   "            return spl[0], ';'.join(spl[1:])", "            return spl[0], spl[1] if spl[1].endswith('\\n') else spl[1] + '\\n'")
 M("itp-header-lost-on-write", ["C16"], "gaddlemaps/parsers/_itp_parse.py",
   "                for line in section:\n                    fopen.write(line)", "                pass")
+# ---- exchange map ---------------------------------------------------------------------
+M("xmap-frames-cached-across-calls", ["C04", "C02"], "gaddlemaps/_exchage_map.py",
+  "        self._calculate_refsystems(refmolecule)\n        new_mol = self._restore_molecule()",
+  "        if not getattr(self, '_called', False):\n            self._calculate_refsystems(refmolecule)\n        self._called = True\n        new_mol = self._restore_molecule()")
+M("xmap-projection-at-call-time", ["C04"], "gaddlemaps/_exchage_map.py",
+  "        self._calculate_refsystems(refmolecule)\n        new_mol = self._restore_molecule()",
+  "        self._calculate_refsystems(self._refmolecule)\n        self._make_map()\n        self._calculate_refsystems(refmolecule)\n        new_mol = self._restore_molecule()")
+M("xmap-returns-target-itself", ["C04"], "gaddlemaps/_exchage_map.py",
+  "        new_mol = self._targetmolecule.copy()", "        new_mol = self._targetmolecule")
+M("xmap-resids-not-copied", ["C04"], "gaddlemaps/_exchage_map.py",
+  "        new_mol.resids = refmolecule.resids\n", "")
+M("xmap-species-check-by-name", ["C04"], "gaddlemaps/_exchage_map.py",
+  "        if self._refmolecule != refmolecule:", "        if self._refmolecule.name != refmolecule.name:")
+M("xmap-nonmolecule-valueerror", ["C04"], "gaddlemaps/_exchage_map.py",
+  '            raise TypeError("Argument must be a Molecule")', '            raise ValueError("Argument must be a Molecule")')
+M("xmap-scale-on-restore-too", ["C01"], "gaddlemaps/_exchage_map.py",
+  "        return center + np.dot(proyection, vectores)", "        return center + np.dot(proyection, vectores) * (1.0 if self.scale_factor == 1 else 0.999)")
+M("xmap-frame-neighbours-highest", ["C03"], "gaddlemaps/components/_components_top.py",
+  "        return sorted(self.bonds)[:natoms]", "        return sorted(self.bonds)[-natoms:] if natoms else []")
+M("xmap-restore-transposed", ["C01", "C03"], "gaddlemaps/_exchage_map.py",
+  "        return center + np.dot(proyection, vectores)", "        return center + np.dot(vectores, proyection)")
+M("xmap-two-atom-axis-random", ["C02"], "gaddlemaps/_exchage_map.py",
+  "            positions = np.array([pos[0], *rand_pos, *pos[1:]])", "            positions = np.append(pos, rand_pos, axis=0)")
+M("frame-exact-zero-collinear-test", ["C02", "C17"], "gaddlemaps/_auxilliary.py",
+  "    if np.linalg.norm(vec3) <= 1e-9*np.linalg.norm(vec_aux):", "    if not np.any(vec3):")
+M("frame-fallback-z-axis-forgotten", ["C01", "C17"], "gaddlemaps/_auxilliary.py",
+  "        if abs(v12) < 0.9:", "        if abs(v12) < 2:")
+# ---- Monte-Carlo loop -------------------------------------------------------------------
+M("mc-accept-against-minimum", ["C09"], "gaddlemaps/_backend.py",
+  "        if _accept_metropolis(chi2, chi2_new):", "        if _accept_metropolis(chi2_min, chi2_new):")
+M("mc-counter-reset-on-accept", ["C09"], "gaddlemaps/_backend.py",
+  "            mol2_positions = test\n            chi2 = chi2_new\n",
+  "            mol2_positions = test\n            chi2 = chi2_new\n            counter = -1\n")
+M("mc-rotation-without-centroid", ["C09"], "gaddlemaps/_backend.py",
+  "            test = _dot(mol2_positions-mol2_com, rot_matrix) + mol2_com", "            test = _dot(mol2_positions, rot_matrix)")
+M("mc-rotation-stale-centroid", ["C09"], "gaddlemaps/_backend.py",
+  "            mol2_com = _mean(mol2_positions, axis=0)\n", "")
+M("mc-off-by-one-stop", ["C09"], "gaddlemaps/_backend.py",
+  "    while counter < n_steps:", "    while counter <= n_steps:")
+M("mc-stops-one-early", ["C09"], "gaddlemaps/_backend.py",
+  "    while counter < n_steps:", "    while counter < n_steps - 1 or (counter < n_steps and n_steps == 1):")
+M("mc-energy-not-updated", ["C09"], "gaddlemaps/_backend.py",
+  "            mol2_positions = test\n            chi2 = chi2_new\n", "            mol2_positions = test\n            chi2 = min(chi2, chi2_new)\n")
+M("mc-returns-best-not-last", ["C09"], "gaddlemaps/_backend.py",
+  ["    chi2_min = chi2\n    counter = 0\n", "                chi2_min = chi2\n                sys.stdout", "    print('\\n')\n    return mol2_positions"],
+  ["    chi2_min = chi2\n    best = mol2_positions\n    counter = 0\n", "                chi2_min = chi2\n                best = test\n                sys.stdout", "    print('\\n')\n    return best"])
+M("mc-metropolis-inverted-ratio", ["C09"], "gaddlemaps/_backend.py",
+  "    return np.random.rand() <= acceptance*factor", "    return np.random.rand() <= acceptance/factor*0.0001")
+M("mc-metropolis-strict", ["C09"], "gaddlemaps/_backend.py",
+  "    return np.random.rand() <= acceptance*factor", "    return np.random.rand() < acceptance*factor*0.5")
+M("mc-disabled-type-drawn", ["C09"], "gaddlemaps/_backend.py",
+  "        change = _choice(sim_type)", "        change = _choice(sim_type) if len(sim_type) > 1 else _choice((0, 1))")
+M("align-setter-no-copy", ["C06"], "gaddlemaps/_alignment.py",
+  "        if (self._end is None) or (self._start is None):\n            self._start = molecule.copy()",
+  "        if (self._end is None) or (self._start is None):\n            self._start = molecule")
+M("align-end-setter-no-copy", ["C06"], "gaddlemaps/_alignment.py",
+  "        if (self._start is None) or (self._end is None):\n            self._end = molecule.copy()",
+  "        if (self._start is None) or (self._end is None):\n            self._end = molecule")
+M("align-writes-result-to-start-on-tie", ["C06"], "gaddlemaps/_alignment.py",
+  "        if len(self.start) < len(self.end):\n            self.start.atoms_positions = mol2_positions",
+  "        if len(self.start) <= len(self.end):\n            self.start.atoms_positions = mol2_positions")
+M("align-moves-end-to-start", ["C06"], "gaddlemaps/_alignment.py",
+  "        self.start.move_to(self.end.geometric_center)", "        self.end.move_to(self.start.geometric_center)")
+# ---- single-atom move ----------------------------------------------------------------------
+M("move-no-copy", ["C07"], "gaddlemaps/_transform_molecule.py",
+  "    atoms_pos = np.copy(atoms_pos)\n", "")
+M("move-skips-second-level", ["C07", "C06"], "gaddlemaps/_transform_molecule.py",
+  "                queue.append((ind2, bonds[0], bonds[1]))  # type: ignore\n                wait_queue.remove(bonds[0])",
+  "                if len(queue) < 2:\n                    queue.append((ind2, bonds[0], bonds[1]))  # type: ignore\n                wait_queue.remove(bonds[0])")
+M("move-displ-two-neighbours-wrong-line", ["C07"], "gaddlemaps/_transform_molecule.py",
+  "                             atoms_pos[bonds_info[atom_index][0][0]] -\n                             atoms_pos[bonds_info[atom_index][1][0]])\n    elif n_bonded_ref >= 3:",
+  "                             atoms_pos[bonds_info[atom_index][0][0]] -\n                             atoms_pos[atom_index])\n    elif n_bonded_ref >= 3:")
+M("move-displ-three-neighbours-mixed", ["C07"], "gaddlemaps/_transform_molecule.py",
+  "                             atoms_pos[bonds_info[atom_index][2][0]],", "                             atoms_pos[atom_index],")
+# ---- chi2 ----------------------------------------------------------------------------------
+M("chi2-penalty-linear", ["C08"], "gaddlemaps/_backend.py",
+  "        if n_cg_far:\n            chi2 *= 1.1**n_cg_far\n        return chi2\n\n    def chi2_molecules",
+  "        if n_cg_far:\n            chi2 *= 1.1*n_cg_far\n        return chi2\n\n    def chi2_molecules")
+M("chi2-restr-penalty-ignores-restrained", ["C08"], "gaddlemaps/_backend.py",
+  "                    len(self.set_restriction2.union(distances.argmin(axis=1))))", "                    len(set(distances.argmin(axis=1))))")
+M("chi2-all-restrained-dup-count", ["C08"], "gaddlemaps/_backend.py",
+  "                                           - len(self.set_restriction2))", "                                           - len(self.restriction2))")
+M("chi2-mask-uses-mobile-index", ["C08"], "gaddlemaps/_backend.py",
+  "            mol1_not_restriction_mask[restriction1] = False", "            mol1_not_restriction_mask[self.restriction2 % len(mol1)] = False")
+M("chi2-norestr-argmin-axis", ["C08"], "gaddlemaps/_backend.py",
+  "        n_cg_far = len(mol2) - len(set(distances.argmin(axis=1)))", "        n_cg_far = len(mol2) - len(set(distances.argmin(axis=0)))")
+# ---- rotation matrix ------------------------------------------------------------------------
+M("rot-axis-not-normalised", ["C17"], "gaddlemaps/_auxilliary.py",
+  "    norm_ax = axis / np.linalg.norm(axis)", "    norm_ax = axis / max(np.linalg.norm(axis), 1.0)")
+M("rot-sin-sign-inside-skew", ["C17"], "gaddlemaps/_auxilliary.py",
+  "                     [norm_ax[1], -norm_ax[0], 0]], dtype=np.float64)", "                     [norm_ax[1], norm_ax[0], 0]], dtype=np.float64)")
 # ---- pbc --------------------------------------------------------------------------
 M("pbc-floor-instead-of-round", ["C19"], "gaddlemaps/components/_residue.py",
   "            vect -= np.round(vect)", "            vect -= np.floor(vect)")
@@ -88,9 +179,12 @@ def run_one(m, quick_runs=None):
                         ignore=shutil.ignore_patterns("__pycache__"))
         p = os.path.join(dst, file)
         s = open(p).read()
-        if old not in s:
-            return name, "STALE (pattern not found)", {}
-        open(p, "w").write(s.replace(old, new, 1))
+        pairs = list(zip(old, new)) if isinstance(old, list) else [(old, new)]
+        for o, nw in pairs:
+            if o not in s:
+                return name, "STALE (pattern not found)", {}
+            s = s.replace(o, nw, 1)
+        open(p, "w").write(s)
         res = {}
         for prop in props:
             env = dict(os.environ, VERIF_REPO=dst, VERIF_SHRINK_S="10", VERIF_WORKERS=os.environ.get("MUT_WORKERS", "4"),
